@@ -160,7 +160,8 @@ func traceAddr1(v ssa.Value, followCopies bool) *trace {
 						}
 					}
 					if n == 0 {
-						t.bases = append(t.bases, base{v, thr})
+						// written only through its address (e.g. by Unpack*): all loads denote the same variable
+						t.bases = append(t.bases, base{a, thr})
 					}
 					return
 				}
